@@ -26,6 +26,7 @@ struct MsgSpec {
     int chunk_fmt = 0;                 // how chunk sizes are written: 0 lower-case hex, 1 upper-case hex, 2 leading zeros (all 1*HEXDIG, RFC 7230 4.1)
     std::vector<std::string> chunk_ext;
     bool head_response = false;        // response to HEAD: headers may announce a body, none follows
+    bool body_withheld = false;        // request with Expect: 100-continue whose client waited, got a final 4xx and never sent the body
     std::string eol = "\r\n";
     Bytes lead;                        // white space sent before the request line (tolerated by the library, "IIS allows this"; C16 only)
     Bytes interim;                     // raw bytes of an interim (100) response sent before this response
@@ -48,6 +49,7 @@ struct GenFeatures {
          pipeline = true, absolute_uri = true, cookies = true, auth = true, query = true, urlenc_body = true, multipart_body = false,
          hostile_body = true, head = true, interim100 = true, http10 = true, put = true, content_coding = false, bare_lf = false,
          wild_host = false,   // bracketed host literals with lengths on buffer-size edges (never in scenarios with ground truth)
+         expect_withheld = false,   // "Expect: 100-continue", final 4xx answer, body never sent (needs a schedule in which the next request follows that answer)
          wild_path = false;   // request paths built from the decoder's corner cases (escapes, %u, overlong UTF-8, dot segments, backslashes)
     int max_exchanges = 6;
     int max_body = 300;
